@@ -8,7 +8,7 @@ from typing import Iterable
 from .refmodel import members, minimal_masks, popcount, proper_submasks
 
 # families whose values are such that every sum the library forms is exactly representable in float64
-EXACT_SA_FAMILIES = ("int", "int_neg", "dyadic8", "grid20", "convex_int", "addsur_int")
+EXACT_SA_FAMILIES = ("int", "int_neg", "dyadic8", "grid20", "convex_int", "addsur_int", "addsur_big_int")
 FLOAT_SA_FAMILIES = ("float", "near_additive")
 SA_FAMILIES = EXACT_SA_FAMILIES + FLOAT_SA_FAMILIES
 
@@ -68,6 +68,11 @@ def sa_game(rng: random.Random, n: int, family: str) -> tuple[list[float], bool]
         v = [sum(wt[i] for i in members(s)) ** q for s in range(size)]
     elif family == "addsur_int":
         wt = [rng.randint(-5, 9) for _ in range(n)]
+        sur = _closure_max(n, [rng.randint(0, 3) if popcount(s) > 1 else 0 for s in range(size)])
+        v = [sum(wt[i] for i in members(s)) + sur[s] for s in range(size)]
+    elif family == "addsur_big_int":
+        # huge stand-alone values, tiny surplus: relative-tolerance shortcuts (allclose / isclose) see "equal" numbers
+        wt = [rng.choice([-1, 1]) * rng.randint(10**6, 10**7) for _ in range(n)]
         sur = _closure_max(n, [rng.randint(0, 3) if popcount(s) > 1 else 0 for s in range(size)])
         v = [sum(wt[i] for i in members(s)) + sur[s] for s in range(size)]
     elif family == "float":
